@@ -404,6 +404,26 @@ def scen_binary(ctx, model, kind):
         check_scalar(ctx, "distance", cls_dense, complex(float(v) ** 2), complex(exp2), tol2,
                      dict(rep, compared="squared distance"), smap, alt=None if alt2 is None else complex(alt2))
     ctx.tally(key0 + ("distance", tag), nontriv)
+    # distance of NEARBY operands (b' = a + eps*b, eps = 3e-5 .. 3e-4): the squared distance is 1e-9 .. 1e-7 of the squared
+    # norms, far above the rounding of the difference of O(1) numbers (1e-15) -- it may not be reported as zero
+    eps = float(rng.choice([3e-5, 1e-4, 3e-4]))
+    try:
+        near = a.copy().add(b.copy().scale(eps))
+        En = lc.dense_state(near)
+    except Exception:  # noqa -- add / scale are judged by their own scenarios
+        near = None
+    if near is not None and nrm(En - Ea) > 0.3 * eps * nrm(Eb) > 0:
+        rep = dict(base, op="distance", variant="nearby-operands", eps=eps)
+        v, ok = guarded(ctx, "distance", cls_dense + ":nearby", lambda: a.copy().distance(near), rep, smap)
+        if ok:
+            exp2 = nrm(Ea - En) ** 2
+            alt2 = None
+            if kind != "mpo" and lc.coeff_of(a) == lc.coeff_of(near):
+                alt2 = nrm(lc.dense_chain(a) - lc.dense_chain(near)) ** 2    # common coefficient factored out (library convention)
+            check_scalar(ctx, "distance:nearby-operands", cls_dense, complex(float(v) ** 2), complex(exp2),
+                         0.05 * min(exp2, alt2 if alt2 is not None else exp2) + 1e-13 * (nrm(Ea) ** 2 + nrm(En) ** 2),
+                         dict(rep, compared="squared distance"), smap, alt=None if alt2 is None else complex(alt2))
+        run.count("distance:nearby-operands")
 
     # --- add / sub
     for op in ("add", "sub"):
